@@ -328,7 +328,7 @@ impl<'a> Gen<'a> {
                 let r = &mut *self.r;
                 let ty = *r.pick(&[libc::S_IFREG, libc::S_IFREG, libc::S_IFIFO, libc::S_IFIFO, libc::S_IFCHR, libc::S_IFSOCK]);
                 let mode = ty | *r.pick(&[0o644u32, 0o600, 0o666, 0o777, 0o4755]);
-                let rdev = if ty == libc::S_IFCHR { libc::makedev(1, 3) as u32 } else { 0 };
+                let rdev = if ty == libc::S_IFCHR { *r.pick(&[libc::makedev(1, 3) as u32, libc::makedev(240, 256) as u32, libc::makedev(7, 0xabc) as u32, libc::makedev(300, 0x1ff) as u32]) } else { 0 };
                 let umask = *r.pick(&[0u32, 0o022, 0o077, 0o027]);
                 Op::Mknod { uid, gid, parent: self.dir_ino(w, tainted), name: self.name(), mode, rdev, umask }
             }
